@@ -522,6 +522,7 @@ impl<S: Storage> Builder<S> {
     }
 
     /// Spawn a new task to execute the given stream.
+    #[cfg_attr(feature = "verif", allow(unused_mut))]
     fn spawn(&mut self, id: Id, mut stream: BoxedExecutor) -> StreamSubscriber {
         let name = self.node(id).to_string();
         let span = TimeSpan::default();
@@ -533,38 +534,14 @@ impl<S: Storage> Builder<S> {
         let (tx, rx) = async_broadcast::broadcast(16);
         #[cfg(feature = "verif")]
         let verif_op = name.split_whitespace().next().unwrap_or("").trim_matches(|c| c == '(' || c == ')').to_string();
+        // (gates inside the operator are attributed to the session that built the plan; an armed fault
+        // plan may replace the operator's k-th item by an error or panic inside the operator)
         #[cfg(feature = "verif")]
-        let mut verif_k = 0usize;
+        let mut stream =
+            crate::verif::scoped_stream(stream, verif_op, || Err(ExecutorError::aborted()));
         let handle = tokio::task::Builder::default()
             .name(&format!("{id}.{name}"))
             .spawn(
-                #[cfg(feature = "verif")]
-                crate::verif::inherit_actor(
-                async move {
-                    loop {
-                        match crate::verif::fault(&verif_op, verif_k) {
-                            crate::verif::FaultAction::None => {}
-                            crate::verif::FaultAction::Error => {
-                                let _ = tx.broadcast(Err(ExecutorError::aborted())).await;
-                                return;
-                            }
-                            crate::verif::FaultAction::Panic => {
-                                panic!("verif: injected panic in operator {verif_op} at item {verif_k}")
-                            }
-                        }
-                        verif_k += 1;
-                        let Some(item) = stream.next().await else { break };
-                        if let Ok(chunk) = &item {
-                            output_row_counter.inc(chunk.cardinality() as _);
-                        }
-                        if tx.broadcast(item).await.is_err() {
-                            return;
-                        }
-                    }
-                }
-                .instrument(tracing::info_span!("executor", id = usize::from(id), name))
-                .timed(span)),
-                #[cfg(not(feature = "verif"))]
                 async move {
                     while let Some(item) = stream.next().await {
                         if let Ok(chunk) = &item {
